@@ -129,4 +129,8 @@ reclaim('C08', None, SRC_NOTE % ('C08', 'harness/facts_dbio.py', 'DbIOFacts.v') 
 reclaim('C01', 'Search streams added after seeded rounds 3-4: all 24 (48 with stereo off) signed axis permutations - exact in floating point - of flat and gridded molecules run on the implementation; molecules scaled so that one '
         'pair distance is a relative 1e-3..1e-7 away from a shell radius (far outside round-off, sensitive to any lab-frame snapping of coordinates).', None)
 reclaim('C04', 'Histories switch between twins of one compound (copy, renumbered, reversed atom order); the same jobs incl. molecules with bond types outside the table are submitted in different orders to fresh interpreters.', None)
+COV_NOTE = ('Correspondence generators audited clause by clause against the property text and the anchored code (coverage_audit/coverage_%s.md): '
+            'call forms, argument types (NumPy scalars), aliasing and reuse sequences, unusual-but-legal inputs; inputs outside the model\'s documented domain are checked directly on the implementation.')
+for _pid in ['C%02d' % i for i in range(1, 21)]:
+    reclaim(_pid, None, COV_NOTE % _pid)
 reclaim('C16', 'No hypothesis on the history; fault enumeration covers update_props(append=True) with mixed fresh/extended columns, from_array with a wrong number of names, columns declared on an empty database.', None)
